@@ -379,6 +379,10 @@ func (db *SingleBucketBackend) PutObject(
 	objectFilePath := filepath.FromSlash(objectName)
 	objectDir := filepath.Dir(objectFilePath)
 
+	if belowFile(db.fs, objectName) {
+		return result, errUnsupportedKey(objectName)
+	}
+
 	if objectDir != "." {
 		if err := db.fs.MkdirAll(objectDir, 0777); err != nil {
 			return result, err
